@@ -37,6 +37,7 @@ RULE += (' Also: items that happen to be awaitable (payload) through every tool 
 RULE += (' Also: tools left after k items over class-based sources whose own aclose suspends, under a loop with and without async generator hooks: no clean-up awaitable is killed, none is pending when aclose() returns, nothing unraisable.')
 RULE += (' Also: synchronous callables whose later results are awaitable payload.')
 RULE += (' Also: large all-synchronous runs (70 000+ items) repeated, driven by hand, inside a running asyncio loop.')
+RULE += (" Also: a tee closed (aclose / async-with exit / child close) during another task's pending read, also inside a running asyncio loop.")
 ASSUMPTIONS = ["a loop that checks identity of every token and reply is at least as strict as any real event loop",
                "C functions called from asyncstdlib code are visible to sys.monitoring CALL events"]
 EXHAUSTIVE = {"quick": False, "thorough": False}
@@ -126,6 +127,14 @@ def cases(tier, seed, shard, nshards):
                             yield {"kind": "pending-read-close",
                                    "c07": {"kind": "conc_close", "flav": flav, "reborrow": reborrow, "close_at": close_at,
                                            "susp": susp, "via": via}}
+        for flav in ("async_class", "async_gen"):
+            for n in (1, 2):
+                for lock in (False, True):
+                    for via in ("aclose", "with", "same_child", "other_child"):
+                        for susp in (1, 2):
+                            for close_at in (1, 2, 3):
+                                yield {"kind": "tee-pending-close", "flav": flav, "n": n, "lock": lock, "via": via,
+                                       "susp": susp, "close_at": close_at}
     kk = 0
     for name in CLOSE_TOOLS:
         for k in (0, 1, 2, 3):
@@ -1066,8 +1075,86 @@ def run_pending_read_close(case, stats):
     return {"violations": viols, "evals": 1, "sigs": [("pending-read-close", str(case["c07"]))]}
 
 
+def run_tee_pending_close(case, stats):
+    """Two tasks share a tee over a suspending source; one closes the tee (aclose / leaving ``async with``) or a
+    sibling child while the other's read through a child is suspended inside the source.  Whatever the library does
+    about it (refuse, close what can be closed), it suspends on nothing but the source's and the lock's own awaitables -
+    hand-driven, and hand-driven inside a running asyncio loop."""
+    from ..loop import Driver
+    from ..probes import SrcState, Plan, make_source
+    _ensure_monitor(stats)
+    viols = []
+
+    def once():
+        CTX.reset()
+        st = SrcState(0, [Item(i, (0, i)) for i in range(4)], Plan(case["susp"]), log=False)
+        src = make_source(st, case["flav"])
+        lock = VLock("tee") if case["lock"] else None
+        handle = A.tee(src, case["n"], lock=lock) if lock is not None else A.tee(src, case["n"])
+        out = {}
+
+        async def reader():
+            try:
+                async for _ in handle[0]:
+                    pass
+            except BaseException as exc:  # noqa: BLE001
+                out["reader"] = repr(exc)
+
+        async def closer():
+            try:
+                if case["via"] == "aclose":
+                    await handle.aclose()
+                elif case["via"] == "with":
+                    async with handle:
+                        pass
+                elif case["via"] == "same_child":
+                    await handle[0].aclose()
+                else:
+                    await handle[case["n"] - 1].aclose()
+            except RuntimeError as exc:
+                out["refused"] = str(exc)
+
+        step = {"n": 0}
+
+        def choose(runnable):
+            step["n"] += 1
+            if step["n"] <= case["close_at"]:
+                return 0 if 0 in runnable else runnable[0]
+            if step["n"] > case["close_at"] + 40 and step["n"] % 2:
+                return 0 if 0 in runnable else runnable[0]
+            return 1 if 1 in runnable else runnable[0]
+
+        driver = Driver(choose)
+        driver.spawn("reader", reader())
+        driver.spawn("closer", closer())
+        driver.run()
+        return list(CTX.foreign), out, [t for t in driver.tasks if t.exc is not None and not isinstance(t.exc, RuntimeError)]
+
+    for inside in (False, True):
+        if inside:
+            import asyncio
+
+            async def host():
+                return once()
+
+            foreign, out, failed = asyncio.run(host())
+        else:
+            foreign, out, failed = once()
+        where = " (driven by hand inside a running asyncio loop)" if inside else ""
+        if foreign:
+            viols.append({"key": "tee-close-during-pending-read/foreign-suspension", "msg": f"tee {case}{where}: {foreign[0]}"})
+        for t in failed:
+            viols.append({"key": "tee-close-during-pending-read/task-raised",
+                          "msg": f"tee {case}{where}: task {t.name} ended with {t.exc!r}"})
+        stats["tee_closes_during_a_pending_read"] += 1
+    _drain_asyncio(viols, "tee-close-during-pending-read")
+    return {"violations": viols, "evals": 2, "sigs": [("tee-pending-close", str(case))]}
+
+
 def run_case(case, stats: Counter):
     kind = case["kind"]
+    if kind == "tee-pending-close":
+        return run_tee_pending_close(case, stats)
     if kind == "pending-read-close":
         return run_pending_read_close(case, stats)
     if kind == "close-tokens":
@@ -1088,7 +1175,7 @@ def run_case(case, stats: Counter):
 def finish(stats, tier):
     for need in ("spec_runs", "catalogue_runs", "poke_runs", "pokes_absorbed", "all_sync_runs", "fresh_interpreter_runs",
                  "suspensions_checked", "asyncstdlib_code_objects_monitored", "large_sync_runs", "module_globals_inspected",
-                 "large_sync_runs_inside_a_running_asyncio_loop"):
+                 "large_sync_runs_inside_a_running_asyncio_loop", "tee_closes_during_a_pending_read"):
         if not stats.get(need):
             return f"deciding counter {need} is zero"
     return None
